@@ -201,8 +201,10 @@ Theorem globstar_regexp_wellformed : forall glob, exists p h, globstarToEscapedR
 Proof. exact globstar_wellformed. Qed.
 Print Assumptions globstar_regexp_wellformed.
 
-(* T8: every regexp.MustCompile whose argument is not a string literal is one of the two pinned resolver sites *)
-Theorem mustcompile_sites_are_exactly : forall s, In s regexp_sites ->
-  re_must s = true -> re_const s = false -> allowed_mustcompile s = true.
-Proof. exact mustcompile_sites_all. Qed.
+(* T8: no regexp.MustCompile on a non-constant argument remains (the two that existed panicked on invalid
+   UTF-8 and were repaired by dfdee39 / dbc750e); the input-derived patterns go through regexp.Compile *)
+Theorem mustcompile_sites_are_exactly : filter nonconst_mustcompile regexp_sites = [] /\
+  forallb (fun n => existsb (fun s => String.eqb (re_func s) n && negb (re_must s)) regexp_sites)
+          ["resolverQuery.parsePackageJSON"; "Resolver.ResolveGlob"; "validateRegex"; "compileFilter"]%string = true.
+Proof. exact (conj mustcompile_sites_none input_patterns_use_compile). Qed.
 Print Assumptions mustcompile_sites_are_exactly.
